@@ -563,10 +563,7 @@ func (m *machine) query(q query) {
 	sort.Float64s(got)
 	for i := range got {
 		w := inRadius[i].d
-		tol := tolPoint(w)
-		if ext || inRadius[i].ext {
-			tol = tolExt(w)
-		}
+		tol := tolRank(w, ext || inRadius[i].ext)
 		if math.Abs(got[i]-w) > tol {
 			fail("not-the-nearest", fmt.Sprintf("%s: the %d-th smallest distance among the results is %v m, among all objects it is %v m (%q)", qs, i+1, got[i], w, inRadius[i].id))
 		}
@@ -835,7 +832,7 @@ func generate(rt *rapid.T, m *machine, server bool, s sizes) {
 	rad(rt)
 }
 
-const ruleText = "history = bulk load of n objects (POINT, POINT z, HASH, BOUNDS, Polygon, LineString, MultiPoint, Feature, small circle objects, empty collections, STRING) over a coordinate pool (uniform world, 1e0..1e-9 clusters with duplicates, |lat|>85 caps incl. both poles, |lon|>175 incl. +-180, 5-degree grid), then a rapid state machine of set-new / move / touch and bulk-touch (FSET, EXPIRE, PERSIST: same geometry value in a new object) / delete / bulk-delete / bulk-move / bulk-insert / query actions; query point = an object position, next to one, a pole, the antimeridian or anywhere; k in {1, small, n/2, n, n+1, random}; radius absent or midway inside a gap of the sorted true distances (gap > 8x tolerance). One evaluation = one NEARBY compared with the reference distances (own haversine; brute-force distance to the bounding rectangle for extended objects) of the full scan: every result an eligible object once and the current object of its id (in-package: pointer identity with Get; server: field f in the POINTS form of the query equals the last FSET), |reported - reference| <= 1e-6 m + 1e-9 d (points) / 1e-4 m + 1e-8 d (extended) + conditioning term towards the antipode, reported distances non-decreasing up to 1e-6 m + 1e-12 d (+ conditioning), result count = min(k, objects within radius), radius queries return exactly the objects within r, and the sorted reference distances of the results equal the smallest ones of the collection. Non-trivial: objects >= 2 x results, >= 1 delete and >= 1 overwrite before the query, and the first object not returned is < 1 % farther than the last returned; distinct by hash of (history, query)."
+const ruleText = "history = bulk load of n objects (POINT, POINT z, HASH, BOUNDS, Polygon, LineString, MultiPoint, Feature, small circle objects, empty collections, STRING) over a coordinate pool (uniform world, 1e0..1e-9 clusters with duplicates, |lat|>85 caps incl. both poles, |lon|>175 incl. +-180, 5-degree grid), then a rapid state machine of set-new / move / touch and bulk-touch (FSET, EXPIRE, PERSIST: same geometry value in a new object) / delete / bulk-delete / bulk-move / bulk-insert / query actions; query point = an object position, next to one, a pole, the antimeridian or anywhere; k in {1, small, n/2, n, n+1, random}; radius absent or midway inside a gap of the sorted true distances (gap > 8x tolerance). One evaluation = one NEARBY compared with the reference distances (own haversine; brute-force distance to the bounding rectangle for extended objects) of the full scan: every result an eligible object once and the current object of its id (in-package: pointer identity with Get; server: field f in the POINTS form of the query equals the last FSET), |reported - reference| <= 1e-6 m + 1e-9 d (points) / 1e-4 m + 1e-8 d (extended) + conditioning term towards the antipode, reported distances non-decreasing up to 1e-6 m + 1e-12 d (+ conditioning; + the cross-track term R*8u*tan(d/R) <= 0.27 m, which only matters within metres of a quarter of the circumference), result count = min(k, objects within radius), radius queries return exactly the objects within r, and the sorted reference distances of the results equal the smallest ones of the collection. Non-trivial: objects >= 2 x results, >= 1 delete and >= 1 overwrite before the query, and the first object not returned is < 1 % farther than the last returned; distinct by hash of (history, query)."
 
 func TestC13_Collection(t *testing.T) {
 	c := ev.New("C13", "collection", "exploration")
